@@ -4,10 +4,18 @@ from mc import core, det, domains, sse
 PROPERTY = 'C02'
 ENGINE = 'E1 bounded-exhaustive enumeration of (scheme, configuration point, profile) x adversarially close absent keywords'
 LEVEL = 'model_checking'
+DIRECTED_ADDITIONS = 'NUL-prefixed stored/random keywords (known finding for SSE-1/SSE-2), keywords of a second database under the same key, KiB keywords'      # members added during the seeded-change campaign (DESIGN 7); counted under their own vacuity counters
+
 CHUNK = 40
 
 
 def describe(tier):
+    d = _describe(tier)
+    d['rule'] = d['rule'] + ' Directed additions: ' + DIRECTED_ADDITIONS + '.'
+    return d
+
+
+def _describe(tier):
     n = 6 if tier == 'quick' else 9
     return {
         'rule': 'case = (scheme, configuration point of G(S), list-length profile, absent keyword); every partition of every N<=%d in '
